@@ -1424,3 +1424,244 @@ Theorem handlers_refine_spec : forall p fuel res,
   eval_spec p fuel = Some res -> exists n, run_m cfg_today p n = Some res.
 Proof. intros p fuel res Hw Hc Hf He. eapply refine_run; eauto. Qed.
 Print Assumptions handlers_refine_spec.
+
+(* ------------------------------------------------------------------------------------------------ *)
+(* statement level: every statement of every function of a program outside the classes *)
+Theorem stmt_sim : forall p, wf_prog p = true -> in_known_class p = None -> forall f' s, Sim p f' s.
+Proof. intros p Hw Hc f' s. apply sim_all; auto. apply callsim_all; auto. Qed.
+Print Assumptions stmt_sim.
+
+Section Corollaries.
+  Variable p : prog.
+  Hypothesis Hwf : wf_prog p = true.
+  Hypothesis Hcls : in_known_class p = None.
+  Local Notation P := (compile_prog K p).
+  Local Notation nf := (length p).
+
+  (* the hypotheses of Sim, for a statement s at pc0 of function g, entered in machine state
+     (stk, fr :: frs, hs, rp, he, out) *)
+  Definition entered (f' : nat) (s : stmt) (c : cctx) (k : kctx) (pc0 g : nat) (il ic : bool) (e : env)
+                     (stk : list val) (fr : frame) (frs : list frame) (hs : list handler)
+                     (rp : option (val * (nat * nat))) (he : bool) (d : nat) : Prop :=
+    g < nf /\ code_at (nth g P []) pc0 (compile K c pc0 s) /\ known_class_stmt p k s = None /\
+    wf_stmt nf il ic s = true /\ f_base fr + c_nloc c + d = length stk /\ (d = 0 \/ flat s = true) /\
+    rel_catch c e (f_base fr) stk ic /\ rel_loop c k e (f_base fr) stk il /\ compat_ret k c hs /\
+    Forall (hok (f_base fr + c_nloc c) (S (length frs))) hs /\
+    ((he = false /\ rp = None) \/ exists F, tryfree p F s = true) /\ frs <> [] /\ S (length frs) + f' <= 64.
+
+  Lemma entered_sim f' s c k pc0 g il ic e stk fr frs hs rp he d out o r :
+    entered f' s c k pc0 g il ic e stk fr frs hs rp he d ->
+    eval_stmt (eval_fn p f') e s = Some (o, r) ->
+    exists cf, steps P (inl (mkS g pc0 stk (fr :: frs) hs rp he out)) cf /\
+               post p c g pc0 (csize K c s) r stk fr frs hs rp he (out ++ o) cf.
+  Proof.
+    intros (H1 & H2 & H3 & H4 & H5 & H6 & H7 & H8 & H9 & H10 & H11 & H12 & H13) He.
+    eapply (stmt_sim p Hwf Hcls f' s); eauto.
+  Qed.
+
+  (* the handler stack after a statement that has been left, whatever the path *)
+  Definition handlers_after (c : cctx) (r : outcome) (hs : list handler) (cf : config) : Prop :=
+    match r with
+    | ONormal => exists st, cf = inl st /\ s_handlers st = hs
+    | OBrk | OCont => exists st L, cf = inl st /\ c_loop c = Some L /\ s_handlers st = skipn (c_try c - l_try L) hs
+    | ORet _ => if c_intry c then exists st, cf = inl st /\ s_handlers st = tl hs
+                else exists st, cf = inl st /\ s_handlers st = hs
+    | OExc _ => match cf with inl st => s_handlers st = tl hs | inr (f, _) => hs = [] \/ f = FStuck end
+    end.
+
+  Lemma post_handlers c g pc0 sz r stk fr frs hs rp he out cf :
+    post p c g pc0 sz r stk fr frs hs rp he out cf -> handlers_after c r hs cf.
+  Proof.
+    destruct r; cbn [post handlers_after].
+    - intros ->. eauto.
+    - intros (L & HL & ->). eauto.
+    - intros (L & HL & ->). eauto.
+    - destruct (c_intry c).
+      + intros (h & hs' & rpc & -> & _ & ->). eauto.
+      + intros ->. eauto.
+    - intros ->. unfold raise. destruct hs as [|h hs']; [auto|]. destruct (skipn _ _); cbn; auto.
+  Qed.
+
+  (* handler_stack_balanced / left_try_never_intercepts: a statement - in particular a try statement - that has been
+     left by normal end, break, continue, return or exception leaves no handler of its own behind: the handler
+     stack is the one at its entry (minus the enclosing try blocks a break/continue/return leaves as well; for an
+     exception: minus the handler that receives it) *)
+  Theorem handler_stack_balanced f' s c k pc0 g il ic e stk fr frs hs rp he d out o r :
+    entered f' s c k pc0 g il ic e stk fr frs hs rp he d ->
+    eval_stmt (eval_fn p f') e s = Some (o, r) ->
+    exists cf, steps P (inl (mkS g pc0 stk (fr :: frs) hs rp he out)) cf /\ handlers_after c r hs cf.
+  Proof.
+    intros H He. destruct (entered_sim f' s c k pc0 g il ic e stk fr frs hs rp he d out o r H He) as (cf & S1 & P1).
+    exists cf. split; [exact S1|eapply post_handlers; exact P1].
+  Qed.
+
+  Theorem left_try_never_intercepts f' b c0 f c k pc0 g il ic e stk fr frs hs rp he d out o r :
+    entered f' (Try b c0 f) c k pc0 g il ic e stk fr frs hs rp he d ->
+    eval_stmt (eval_fn p f') e (Try b c0 f) = Some (o, r) ->
+    exists cf, steps P (inl (mkS g pc0 stk (fr :: frs) hs rp he out)) cf /\ handlers_after c r hs cf.
+  Proof. apply handler_stack_balanced. Qed.
+
+  (* throw_reaches_innermost: an exception that escapes a statement - thrown directly, by a failing built-in or in a
+     callee at any depth - is delivered to the innermost handler active at the statement's entry: control continues
+     at its catch address in the frame that pushed it, the stack cut back to the handler's height (the handling
+     function's variables intact) with the exception on top, and exactly this handler popped *)
+  Theorem throw_reaches_innermost f' s c k pc0 g il ic e stk fr frs h hs rp he d out o v :
+    entered f' s c k pc0 g il ic e stk fr frs (h :: hs) rp he d ->
+    eval_stmt (eval_fn p f') e s = Some (o, OExc v) ->
+    exists frs', skipn (S (length frs) - h_frames h) (fr :: frs) = frs' /\ frs' <> [] /\
+      steps P (inl (mkS g pc0 stk (fr :: frs) (h :: hs) rp he out))
+              (inl (mkS (h_fn h) (h_catch h) (firstn (h_height h) stk ++ [v]) frs' hs rp
+                        (h_catch h =? h_fin h) (out ++ o))).
+  Proof.
+    intros H He. pose proof H as H'. destruct H' as (_ & _ & _ & _ & _ & _ & _ & _ & _ & Hh & _).
+    destruct (entered_sim f' s c k pc0 g il ic e stk fr frs (h :: hs) rp he d out o _ H He) as (cf & S1 & P1).
+    cbn [post] in P1. unfold raise in P1. cbn [length] in P1.
+    inversion Hh as [|? ? [H1 [H2 H3]] H4]; subst.
+    destruct (skipn (S (length frs) - h_frames h) (fr :: frs)) as [|fr' frs''] eqn:E.
+    - exfalso. apply (f_equal (@length frame)) in E. rewrite skipn_length in E. cbn [length] in E. lia.
+    - eexists; split; [reflexivity|]. split; [discriminate|]. try subst cf. exact S1.
+  Qed.
+
+  (* an exception nobody catches ends the run with an error naming the thrown value *)
+  Theorem uncaught_names_value f' s c k pc0 g il ic e stk fr frs rp he d out o v :
+    entered f' s c k pc0 g il ic e stk fr frs [] rp he d ->
+    eval_stmt (eval_fn p f') e s = Some (o, OExc v) ->
+    steps P (inl (mkS g pc0 stk (fr :: frs) [] rp he out)) (inr (FUncaught v, out ++ o)).
+  Proof.
+    intros H He. destruct (entered_sim f' s c k pc0 g il ic e stk fr frs [] rp he d out o _ H He) as (cf & S1 & P1).
+    cbn [post raise] in P1. subst cf. exact S1.
+  Qed.
+
+  (* finally_exactly_once / outcome_continues: whatever way the try/catch part (output o12, outcome r12) is left, the
+     machine emits o12 followed by ONE copy of the output o3 of the finally block, and ends in the state that
+     continues r12 when the finally block ends normally (fall-through / the function returns v to its caller /
+     the exception is raised to the handlers of the entry) - or in the finally block's own abnormal outcome *)
+  Theorem finally_exactly_once f' b c0 f1 c k pc0 g il ic e stk fr frs hs rp he d out o r :
+    entered f' (Try b c0 (Some f1)) c k pc0 g il ic e stk fr frs hs rp he d ->
+    eval_stmt (eval_fn p f') e (Try b c0 (Some f1)) = Some (o, r) ->
+    exists o12 r12 o3 r3,
+      eval_stmt (eval_fn p f') e (Try b c0 None) = Some (o12, r12) /\
+      eval_stmt (eval_fn p f') e f1 = Some (o3, r3) /\
+      o = o12 ++ o3 /\ r = fin_outcome r12 r3 /\
+      exists cf, steps P (inl (mkS g pc0 stk (fr :: frs) hs rp he out)) cf /\
+                 post p c g pc0 (csize K c (Try b c0 (Some f1))) (fin_outcome r12 r3) stk fr frs hs rp he (out ++ o12 ++ o3) cf.
+  Proof.
+    intros H He. destruct (entered_sim f' _ c k pc0 g il ic e stk fr frs hs rp he d out o r H He) as (cf & S1 & P1).
+    pose proof He as He'. apply eval_try_inv in He'. destruct He' as (o1 & r1 & Eb & o12 & r12 & H12 & HF).
+    destruct HF as [(X & _)|(f1' & o3 & r3 & X & Ef & -> & ->)]; [discriminate|]. inversion X; subst f1'.
+    exists o12, r12, o3, r3. split.
+    - cbn [eval_stmt]. rewrite Eb.
+      destruct H12 as [(v & c1 & o2 & -> & -> & Ec & ->)|(Hn & -> & ->)].
+      + rewrite Ec. reflexivity.
+      + destruct r1; try reflexivity. rewrite (Hn v eq_refl). reflexivity.
+    - split; [exact Ef|]. split; [reflexivity|]. split; [reflexivity|]. exists cf. split; [exact S1|exact P1].
+  Qed.
+
+  Theorem outcome_continues f' b c0 f1 c k pc0 g il ic e stk fr frs hs rp he d out o12 r12 o3 :
+    entered f' (Try b c0 (Some f1)) c k pc0 g il ic e stk fr frs hs rp he d ->
+    eval_stmt (eval_fn p f') e (Try b c0 None) = Some (o12, r12) ->
+    eval_stmt (eval_fn p f') e f1 = Some (o3, ONormal) ->
+    exists cf, steps P (inl (mkS g pc0 stk (fr :: frs) hs rp he out)) cf /\
+               post p c g pc0 (csize K c (Try b c0 (Some f1))) r12 stk fr frs hs rp he (out ++ o12 ++ o3) cf.
+  Proof.
+    intros H E12 Ef.
+    assert (He : eval_stmt (eval_fn p f') e (Try b c0 (Some f1)) = Some (o12 ++ o3, r12)).
+    { cbn [eval_stmt] in *. destruct (eval_stmt (eval_fn p f') e b) as [[o1 r1]|]; [|discriminate].
+      destruct r1; try (inversion E12; subst; rewrite Ef; reflexivity).
+      destruct c0 as [c1|].
+      - destruct (eval_stmt (eval_fn p f') {| e_exc := v; e_iter := e_iter e |} c1) as [[o2 r2]|]; [|discriminate].
+        inversion E12; subst. rewrite Ef. reflexivity.
+      - inversion E12; subst. rewrite Ef. reflexivity. }
+    destruct (entered_sim f' _ c k pc0 g il ic e stk fr frs hs rp he d out _ _ H He) as (cf & S1 & P1).
+    exists cf. split; [exact S1|]. exact P1.
+  Qed.
+
+  (* catch_does_not_disable_outer: handling an exception in a catch clause leaves every outer handler in place *)
+  Theorem catch_does_not_disable_outer f' b c1 c k pc0 g il ic e stk fr frs hs rp he d out o1 v o2 :
+    entered f' (Try b (Some c1) None) c k pc0 g il ic e stk fr frs hs rp he d ->
+    eval_stmt (eval_fn p f') e b = Some (o1, OExc v) ->
+    eval_stmt (eval_fn p f') {| e_exc := v; e_iter := e_iter e |} c1 = Some (o2, ONormal) ->
+    steps P (inl (mkS g pc0 stk (fr :: frs) hs rp he out))
+            (inl (mkS g (pc0 + csize K c (Try b (Some c1) None)) stk (fr :: frs) hs rp he (out ++ o1 ++ o2))).
+  Proof.
+    intros H Eb Ec.
+    assert (He : eval_stmt (eval_fn p f') e (Try b (Some c1) None) = Some (o1 ++ o2, ONormal)).
+    { cbn [eval_stmt]. rewrite Eb, Ec. reflexivity. }
+    destruct (entered_sim f' _ c k pc0 g il ic e stk fr frs hs rp he d out _ _ H He) as (cf & S1 & P1).
+    cbn [post] in P1. subst cf. exact S1.
+  Qed.
+End Corollaries.
+Print Assumptions handler_stack_balanced.
+Print Assumptions throw_reaches_innermost.
+Print Assumptions finally_exactly_once.
+Print Assumptions outcome_continues.
+Print Assumptions catch_does_not_disable_outer.
+
+(* ------------------------------------------------------------------------------------------------ *)
+(* the hypotheses are satisfiable: a program with two handlers active at the throw, a finally block run on the
+   exceptional path, a loop left by break out of a try block, a return through a finally block *)
+From Coq Require Import String.
+Open Scope string_scope.
+Definition ex_prog : prog :=
+  parse_prog "1 7 3 6 1 0 1 8 2 9 6 0 1 4 1 2 2 1 3 2 3 12 0;6 0 1 11 5 2 6;1 6 1 1 1 12 1 5 3 2 7 2 8".
+Example ex_prog_ok : wf_prog ex_prog = true /\ in_known_class ex_prog = None /\
+  eval_spec ex_prog 10 = run_m cfg_today ex_prog 400 /\ exists r, eval_spec ex_prog 10 = Some r.
+Proof. vm_compute. repeat split; eauto. Qed.
+
+(* ------------------------------------------------------------------------------------------------ *)
+(* one witness per open class: the faithful model deviates from the Spec (replayed on the real binary by the check) *)
+Definition refutes (K0 : cfg) (w : string) (cl : option cls) : Prop :=
+  let p := parse_prog w in
+  wf_prog p = true /\ in_known_class p = cl /\
+  exists rs rm, eval_spec p 20 = Some rs /\ run_m K0 p 2000 = Some rm /\ rs <> rm.
+
+Ltac refute := unfold refutes; vm_compute; split; [reflexivity|split; [reflexivity|]];
+  do 2 eexists; split; [reflexivity|split; [reflexivity|discriminate]].
+
+Definition wit_early_exit_break := "1 7 1 6 0 1 9 2 1 2 2".
+Definition wit_early_exit_return2 := "6 0 1 6 0 1 11 1 2 2 2 3".
+Definition wit_early_exit_catch := "6 1 1 4 1 11 2 2 3".
+Definition wit_return_no_finally := "1 6 1 0 11 1 0 1 2 2 11 3".
+Definition wit_finally_local := "6 0 1 4 1 7 1 2 2;1 6 1 0 12 0 3 2 3".
+Definition wit_he_global_nested := "6 0 1 4 1 6 1 0 4 2 0;1 6 1 0 12 0 3 2 3".
+Definition wit_he_global_callee := "6 0 1 2 1 2 2;6 0 1 4 3 12 0;6 1 0 12 1 3".
+Definition wit_abrupt_finally := "1 7 1 6 0 1 4 1 9 1 6 0 1 2 2 2 3 1 2 4 11 5".
+Definition wit_pending_return := "6 0 1 11 1 4 2;1 6 1 0 12 0 3 1 6 0 1 2 3 2 4 1 2 5 11 6".
+Definition wit_catch_pops_outer := "6 1 0 1 6 1 0 4 1 0 4 2 1 3 2 9".
+Definition wit_break_in_try := "1 7 2 6 1 0 9 2 5 4 7;6 1 0 12 0 3".
+
+Lemma early_exit_skips_finally_refuted : refutes cfg_today wit_early_exit_break (Some EarlyExitSkipsFinally).
+Proof. refute. Qed.
+Lemma return_through_two_tries_refuted : refutes cfg_today wit_early_exit_return2 (Some EarlyExitSkipsFinally).
+Proof. refute. Qed.
+Lemma return_in_catch_skips_finally_refuted : refutes cfg_today wit_early_exit_catch (Some EarlyExitSkipsFinally).
+Proof. refute. Qed.
+Lemma return_in_try_catch_no_finally_refuted : refutes cfg_today wit_return_no_finally (Some ReturnInTryCatchNoFinally).
+Proof. refute. Qed.
+Lemma finally_local_refuted : refutes cfg_today wit_finally_local (Some FinallyLocal).
+Proof. refute. Qed.
+Lemma handling_exception_global_refuted : refutes cfg_today wit_he_global_nested (Some HandlingExceptionGlobal).
+Proof. refute. Qed.
+Lemma handling_exception_global_callee_refuted : refutes cfg_today wit_he_global_callee (Some HandlingExceptionGlobal).
+Proof. refute. Qed.
+Lemma abrupt_exit_from_finally_refuted : refutes cfg_today wit_abrupt_finally (Some AbruptExitFromFinally).
+Proof. refute. Qed.
+Lemma pending_return_survives_throw_refuted : refutes cfg_today wit_pending_return (Some PendingReturnSurvivesThrow).
+Proof. refute. Qed.
+
+(* the repaired defects, on the model variants the translator would select for the old emitters: the programs are
+   OUTSIDE every class, so with today's configuration handlers_refine_spec covers them *)
+Lemma catch_pops_outer_refuted_old : refutes cfg_old_catch_pops wit_catch_pops_outer None.
+Proof. refute. Qed.
+Lemma break_in_try_refuted_old : refutes cfg_old_break wit_break_in_try None.
+Proof. refute. Qed.
+Lemma repaired_today :
+  eval_spec (parse_prog wit_catch_pops_outer) 20 = run_m cfg_today (parse_prog wit_catch_pops_outer) 2000 /\
+  eval_spec (parse_prog wit_break_in_try) 20 = run_m cfg_today (parse_prog wit_break_in_try) 2000.
+Proof. vm_compute. split; reflexivity. Qed.
+
+(* the headline for any configuration that equals today's (props/C08.v instantiates it with the regenerated one) *)
+Theorem handlers_refine_spec_cfg : forall K0, K0 = cfg_today -> forall p fuel res,
+  wf_prog p = true -> in_known_class p = None -> fuel <= 63 ->
+  eval_spec p fuel = Some res -> exists n, run_m K0 p n = Some res.
+Proof. intros K0 ->. exact handlers_refine_spec. Qed.
